@@ -270,6 +270,7 @@ def core_case(seed):
                                                   # the same call text twice: each occurrence is its own conjunct
                                                   Bin('-', call, call), Bin('+', call, call)])))
         bound.append(v)
+      front_disj = False
       if rnd.random() < 0.3 and len(items) >= 2:
         # nested disjunction
         k = rnd.randrange(len(items))
@@ -277,7 +278,11 @@ def core_case(seed):
           other = 'F' if items[k].pred == 'E' else 'E'
           alt = Atom(other, list(reversed(items[k].args)), [])
           items[k] = Disj([items[k], alt if rnd.random() < 0.5 else Conj([alt, A('G', items[k].args[0])])])
-      body = Conj(shuffle_keep(rnd, items) if rnd.random() < 0.5 else items)
+          if rnd.random() < 0.5:
+            # the disjunction first, everything else after it (DNF must distribute over all of it)
+            items = [items[k]] + items[:k] + items[k + 1:]
+            front_disj = True
+      body = Conj(shuffle_keep(rnd, items) if (rnd.random() < 0.5 and not front_disj) else items)
       head_args = [b.int_expr(bound, 1) for _ in range(npos)]
       head_named = []
       for n in named:
